@@ -1,4 +1,5 @@
 import KafVerif.Model.ProxyProto
+import KafVerif.Model.ProxyConns
 import KafVerif.Prelude.Driver
 open KafVerif KafVerif.ProxyProto
 
@@ -24,6 +25,60 @@ def showResE (s : Bytes) : String :=
   | .err => s!"err rest={toHex (errRest s)}"
   | _ => showRes s
 
+/-! ### connection lifecycles (`Model/ProxyConns.lean`): `sess` = one goroutine drives several connections, `par` = rounds of
+concurrently running connections.  Event tokens: `a<i>=<hex>` accept connection i with that stream, `r<i>=<n>` io.ReadFull of
+n bytes, `d<i>` read to EOF, `c<i>` Close (may be repeated). -/
+
+/-- header part of `showRes`, blanks replaced (one token per event in the session line) -/
+def showHdr (s : Bytes) : String :=
+  (((showRes s).splitOn " rest=").headD "").replace " " ","
+
+def drainN : Nat := 2 ^ 40
+
+def parseEv (tok : String) : Option (Ev × Bytes) :=
+  match tok.toList with
+  | 'a' :: rest =>
+    match (String.ofList rest).splitOn "=" with
+    | [i, hx] => do let i ← i.toNat?; let b ← fromHex hx; pure (.accept i b, b)
+    | _ => none
+  | 'r' :: rest =>
+    match (String.ofList rest).splitOn "=" with
+    | [i, n] => do let i ← i.toNat?; let n ← n.toNat?; pure (.read i n, [])
+    | _ => none
+  | 'd' :: rest => do let i ← (String.ofList rest).toNat?; pure (.read i drainN, [])
+  | 'c' :: rest => do let i ← (String.ofList rest).toNat?; pure (.close i, [])
+  | _ => none
+
+def showOut (stream : Bytes) : Nat × Out → String
+  | (i, .accepted _) => s!"a{i}:{showHdr stream}"
+  | (i, .data b) => s!"r{i}:{toHex b}"
+  | (i, .closed) => s!"c{i}"
+  | (i, .bad) => s!"bad{i}"
+
+def showSess (toks : List String) : String :=
+  match toks.mapM parseEv with
+  | none => "bad-op"
+  | some evs =>
+    let outs := run noConns (evs.map (·.1))
+    joinWith " " ((evs.zip outs).map fun (e, o) => showOut e.2 o)
+
+/-- one `par` round: every connection is accepted, read to EOF and closed k times, all at the same time; the model result
+of a connection is the one of its own session (`conn_independent`) -/
+def showParConn (tok : String) : Option String :=
+  match tok.splitOn ":" with
+  | [k, hx] => do
+    let k ← k.toNat?
+    let b ← fromHex hx
+    let evs := Ev.accept 0 b :: Ev.read 0 drainN :: List.replicate k (Ev.close 0)
+    let outs := run noConns evs
+    pure s!"{showHdr b},rest={toHex (delivered 0 outs)}"
+  | _ => none
+
+def showPar (toks : List String) : String :=
+  match toks.mapM (fun t => if t = "/" then some "/" else showParConn t) with
+  | none => "bad-op"
+  | some rs => joinWith " " rs
+
 def stepLine (u : Unit) (ws : List String) : Unit × String :=
   match ws with
   | ["econn", _, hx] => match fromHex hx with
@@ -35,6 +90,8 @@ def stepLine (u : Unit) (ws : List String) : Unit × String :=
   | ["conn", _, hx] => match fromHex hx with      -- second word = chunking seed (implementation side only)
     | some b => (u, showRes b)
     | none => (u, "bad-op")
+  | "sess" :: _ :: toks => (u, showSess toks)
+  | "par" :: _ :: toks => (u, showPar toks)
   | _ => (u, "bad-op")
 
 def main : IO Unit := runLines () stepLine
